@@ -112,6 +112,8 @@ class Check:
         data = open(path, "rb").read()
         h = hashlib.sha256(data).hexdigest()[:12]
         d = os.path.join(VERIF, "replays", self.prop)
+        if os.environ.get("VERIF_SCRATCH"):
+            d = os.path.join(VERIF, "build", "scratch", "replays", self.prop)
         os.makedirs(d, exist_ok=True)
         ext = os.path.splitext(path)[1] if os.path.splitext(path)[1] in (".txt", ".json", ".cpp", ".bin") else ".txt"
         dst = os.path.join(d, "found-%s%s" % (h, ext))
@@ -267,8 +269,11 @@ class Check:
         cov.update(extra)
         doc = dict(property_id=self.prop, tier=self.tier, seed=self.seed, level=self.cfg.get("level", "exploration"), coverage=cov,
                    assumptions=assumptions, wall_s=round(wall, 2), violations=len(self.violations))
-        os.makedirs(os.path.join(VERIF, "evidence"), exist_ok=True)
-        p = os.path.join(VERIF, "evidence", "%s.json" % self.prop)
+        evdir = os.path.join(VERIF, "evidence")
+        if os.environ.get("VERIF_SCRATCH"):
+            evdir = os.path.join(VERIF, "build", "scratch", "evidence")
+        os.makedirs(evdir, exist_ok=True)
+        p = os.path.join(evdir, "%s.json" % self.prop)
         tmp = p + ".tmp"
         json.dump(doc, open(tmp, "w"), indent=1)
         os.replace(tmp, p)
